@@ -279,16 +279,33 @@ func (e *OpEngine) RunLossChecks() {
 			rank = 2
 		}
 		// valid instances: each dim 1 or an atom; tracked and untracked inputs
+		lossT := e.typeOf(core.PkgLosses, name)
 		for _, d := range patterns("n", rank) {
-			for _, tracked := range []bool{false, true} {
+			for ti, tracked := range []bool{false, true, false} {
+				// the third variant uses the ZERO VALUE of the exported type (`new(losses.X)`, `var l losses.X`) instead of
+				// the constructor: the type carries no configuration, so both must be the same loss
+				zeroValue := ti == 2
+				if zeroValue && lossT == nil {
+					continue
+				}
 				label := fmt.Sprintf("%s p,t=%s tracked=%v", name, shapeStr(d), tracked)
+				if zeroValue {
+					label += " zero-value receiver"
+				}
 				e.RunBody(key, label, 200, func() {
 					e.M.Base = sizeBase(d)
-					out, ok := e.call(key, label, ctor, nil)
-					if !ok {
-						return
+					var recv interp.Value
+					if zeroValue {
+						recv = e.M.NewStruct(lossT, "zero-value:"+name)
+					} else {
+						out, ok := e.call(key, label, ctor, nil)
+						if !ok {
+							return
+						}
+						recv = out.Results[0]
 					}
-					recv := out.Results[0]
+					var out interp.Outcome
+					var ok bool
 					p := e.mkTensor("P", TensorArg{Dims: d, Tracked: tracked, Rng: spec.Rng(-1e6, 1e6)})
 					t := e.mkTensor("T", TensorArg{Dims: d, Rng: spec.Rng(-1e6, 1e6)})
 					out, ok = e.call(key, label, compute, []interp.Value{recv, e.W.Boxed(p), e.W.Boxed(t)})
